@@ -339,7 +339,7 @@ def trace_case():
     })
     other_case = st.fixed_dictionaries({
         "origin": st.sampled_from(["exec:<string>", "exec:", "exec:missing", "deep:7", "deep:60", "pingpong:5",
-                                   "chain:2:explicit", "chain:3:implicit"]),
+                                   "chain:2:explicit", "chain:3:implicit", "multiline", "multiline-nested"]),
     })
     common = st.fixed_dictionaries({
         "exc": st.sampled_from(c04.EXC_KINDS[:7] + c04.EXC_KINDS[8:]),
